@@ -155,6 +155,9 @@ enum Work {
     Bits(usize, u64, Vec<u64>),
     /// mode, x coefficients, alternative coefficient vectors (each an extension element)
     Coeffs(&'static str, [u64; 4], Vec<[u64; 4]>),
+    /// bits over the degree-4 extension: n, x (base value), digits as extension elements
+    /// (u64::MAX-k encodes -k)
+    BitsExt(usize, u64, Vec<[u64; 4]>),
 }
 
 struct Case {
@@ -207,6 +210,53 @@ fn bits_cases(n: usize, xs: &[u64], out: &mut Vec<Case>) {
                 detail: format!("x={xv} {detail}"),
                 canonical,
                 work: Work::Bits(n, xv, digits),
+            });
+        }
+    }
+}
+
+fn bits_circuit_ext(n: usize) -> Circuit<BB4> {
+    let mut b = CircuitBuilder::<BB4>::new();
+    let x = b.public_input();
+    let bits = b.decompose_to_bits::<BB>(x, n).unwrap();
+    let k = b.define_const(BB4::from_u64(K));
+    let ys: Vec<ExprId> = (0..n).map(|_| b.public_input()).collect();
+    for i in 0..n {
+        let m = b.mul(bits[i], k);
+        b.connect(m, ys[i]);
+    }
+    b.build().unwrap()
+}
+
+/// decompose_to_bits in a degree-4 circuit: digits with a non-base component that cancels in
+/// the recomposition (digit i += 2^(j-i)·X^e, digit j -= X^e).
+fn bits_ext_cases(n: usize, xs: &[u64], out: &mut Vec<Case>) {
+    for &xv in xs {
+        if xv >> n != 0 {
+            continue;
+        }
+        let canon: Vec<[u64; 4]> = (0..n).map(|i| [(xv >> i) & 1, 0, 0, 0]).collect();
+        let mut alts: Vec<(&'static str, String, Vec<[u64; 4]>, bool)> = vec![("canonical", "bits of x".into(), canon.clone(), true)];
+        for i in 0..n {
+            for j in (i + 1)..n {
+                for e in [1usize, 3] {
+                    if j - i > 20 {
+                        continue;
+                    }
+                    let mut d = canon.clone();
+                    d[i][e] = 1u64 << (j - i);
+                    d[j][e] = u64::MAX; // -1
+                    alts.push(("digits_with_extension_component", format!("digit{i}+=2^{}·X^{e},digit{j}-=X^{e}", j - i), d, false));
+                }
+            }
+        }
+        for (class, detail, digits, canonical) in alts {
+            out.push(Case {
+                site: format!("decompose_to_bits(n={n})/babybear-d4"),
+                class,
+                detail: format!("x={xv} {detail}"),
+                canonical,
+                work: Work::BitsExt(n, xv, digits),
             });
         }
     }
@@ -271,6 +321,38 @@ fn run_case(w: &Work) -> Outcome {
                         }
                     };
                     match prove_bb_forged::<BB, 1>(&c2, &pubs, Some(&forge)) {
+                        Outcome::Accepted => Outcome::Accepted,
+                        _ => direct,
+                    }
+                }
+                None => Outcome::Panic("hint not found".into()),
+            }
+        }
+        Work::BitsExt(n, xv, digits) => {
+            let c = bits_circuit_ext(*n);
+            let f = |v: u64| if v == u64::MAX { BB::NEG_ONE } else { BB::from_u64(v) };
+            let d: Vec<BB4> = digits.iter().map(|c| ext_from::<BB, BB4>(&c.iter().map(|v| f(*v)).collect::<Vec<_>>())).collect();
+            let mut pubs = vec![BB4::from_u64(*xv)];
+            pubs.extend(d.iter().map(|x| *x * BB4::from_u64(K)));
+            match with_hint(&c, 0, d) {
+                Some(c2) => {
+                    let direct = prove_bb::<BB4, 4>(&c2, &pubs);
+                    if !matches!(direct, Outcome::Rejected(_)) {
+                        return direct;
+                    }
+                    // forged BoolCheck rows: the checked cells `a` (and `c`) carry the base part
+                    // of the digit, the cell that goes to the bus keeps the full digit
+                    let forge = |t: &mut p3_circuit::Traces<BB4>| {
+                        for r in 0..t.alu_trace.values.len() {
+                            if t.alu_trace.op_kind[r] == p3_circuit::ops::AluOpKind::BoolCheck {
+                                let a = t.alu_trace.values[r][0];
+                                let base = <BB4 as BasedVectorSpace<BB>>::as_basis_coefficients_slice(&a)[0];
+                                t.alu_trace.values[r][0] = BB4::from(base);
+                                t.alu_trace.values[r][2] = BB4::from(base);
+                            }
+                        }
+                    };
+                    match prove_bb_forged::<BB4, 4>(&c2, &pubs, Some(&forge)) {
                         Outcome::Accepted => Outcome::Accepted,
                         _ => direct,
                     }
@@ -397,6 +479,9 @@ fn main() {
         xs.sort();
         xs.dedup();
         bits_cases(n, &xs, &mut cases);
+    }
+    for n in if ctx.quick() { vec![2usize, 3, 8] } else { vec![1, 2, 3, 4, 8, 16, 31] } {
+        bits_ext_cases(n, &[0, 1, 2, 5], &mut cases);
     }
     for mode in ["alu", "npo", "npo_coeff"] {
         coeff_cases(mode, &mut cases);
